@@ -105,6 +105,7 @@ type env struct {
 	cfg      *configv1.Config
 	filter   *server.ExtAuthZFilter
 	replicas []*server.ExtAuthZFilter // replicas[0] == filter
+	fronts   []*grpcFront             // per replica, when the scenario asks for the gRPC path
 	factory  *spyFactory
 	mr       map[string]*miniredis.Miniredis
 	cancel   context.CancelFunc
@@ -377,6 +378,9 @@ func (d *driver) teardown() {
 	if d.env == nil {
 		return
 	}
+	for _, fr := range d.env.fronts {
+		fr.close()
+	}
 	d.env.cancel()
 	for _, m := range d.env.mr {
 		m.Close()
@@ -622,6 +626,16 @@ func (d *driver) setup(spec CfgSpec) error {
 		sf := &spyFactory{d: d, real: fac2, spies: map[oidc.SessionStore]*spyStore{}, tag: fmt.Sprintf("r%d", i)}
 		e.replicas = append(e.replicas, server.NewExtAuthZFilter(e.cfg, tlsPool, &spyJWKS{d: d, real: jw2}, sf))
 	}
+	if spec.Grpc {
+		for _, r := range e.replicas {
+			fr, err := d.newGrpcFront(e, r)
+			if err != nil {
+				cancel()
+				return err
+			}
+			e.fronts = append(e.fronts, fr)
+		}
+	}
 	d.env = e
 	return nil
 }
@@ -814,6 +828,8 @@ func (d *driver) start(st *Step) *checkRun {
 		}()
 		if d.checkFn != nil {
 			c.resp, c.err = d.checkFn(ctx, req)
+		} else if len(e.fronts) > 0 {
+			c.resp, c.err = e.fronts[c.r%len(e.fronts)].check(ctx, c, req)
 		} else {
 			c.resp, c.err = e.replicas[c.r%len(e.replicas)].Check(ctx, req)
 		}
@@ -1133,9 +1149,10 @@ func (d *driver) describe(c *checkRun, f *FilterSpec, ev map[string]any) {
 	code := int(r.GetStatus().GetCode())
 	ev["code"] = code
 	ser := protojson.MarshalOptions{}.Format(r)
-	if ok := r.GetOkResponse(); code == 0 && r.GetDeniedResponse() == nil {
+	// the proxy decides on the status code alone: code 0 (also: no status at all) lets the request through, whatever else the answer carries
+	if ok := r.GetOkResponse(); code == 0 {
 		ev["kind"] = "ok"
-		ev["wellFormed"] = r.Status != nil
+		ev["wellFormed"] = r.Status != nil && r.GetDeniedResponse() == nil
 		up := []any{}
 		allow := map[string]bool{}
 		for _, h := range ok.GetHeaders() {
